@@ -957,7 +957,8 @@ pub fn run_c10(cfg: &Config) -> i32 {
 		total.inconclusive.push(format!("oracle self-test failed: {}", m))
 	}
 	let seed = cfg.seed;
-	let shards = 64usize;
+	// every shard runs at least one case of each family: fewer shards under the interpreter
+	let shards = if cfg!(miri) { 6usize } else { 64usize };
 	let n = cfg.budget(150_000, 4_000_000);
 	let rep = parallel(cfg.threads, shards, |i| {
 		let mut rep = Report::new();
